@@ -172,6 +172,7 @@ class BatonScheduler:
         self.step_cap = step_cap
         self.current = None
         self.switches = 0
+        self.trace = []
         self._tl = threading.local()
 
     def spawn(self, name, fn):
@@ -235,6 +236,7 @@ class BatonScheduler:
             self.current = w
             if not self.killed:
                 self.log.add('sched', 'run', w.name)
+                self.trace.append(w.idx)
             w.sem.release()
             self.main_sem.acquire()
         for w in self.workers:
